@@ -47,6 +47,11 @@ type Plan struct {
 	FailAt    int  // -1: none; else byte offset at which Err is injected
 	FailWith  bool // error delivered together with the bytes before FailAt
 	Err       error
+	// AfterErr says what the source does once it has reported the failure: 0 = the same error on
+	// every later call; 1 = io.EOF on every later call; 2 = it carries on with the data behind the
+	// failure point (a transient condition, e.g. a deadline that passed). io.Reader promises none
+	// of the three; a consumer that stops at the first error - as io.ReadAll does - sees no difference.
+	AfterErr int
 }
 
 // DrawPlan draws a reader plan for data of length n. faults selects whether a
@@ -82,6 +87,7 @@ func DrawPlan(t *core.Tape, n int, faults bool) Plan {
 		case 2:
 			p.Err = ErrWrappedEOF // wraps io.EOF: still a failure, only the sentinel itself means end of data
 		}
+		p.AfterErr = t.Pick(0, 0, 1, 2)
 	}
 	return p
 }
@@ -98,6 +104,7 @@ type Reader struct {
 	dev         *core.Tape
 	sticky      error
 	afterSticky int
+	resumed     bool // the failure was transient and has been reported (Plan.AfterErr == 2)
 	zeros       int
 	emptyCalls  int
 	pendingEOF  int // for EOFAfterZero: 1 = a (0,nil) is still due
@@ -121,7 +128,12 @@ func (r *Reader) Visible() []byte {
 	return r.Data
 }
 
-func (r *Reader) limit() int { return len(r.Visible()) }
+func (r *Reader) limit() int {
+	if r.resumed {
+		return len(r.Data)
+	}
+	return len(r.Visible())
+}
 
 func (r *Reader) fin(n int, err error) (int, error) {
 	r.Reads++
@@ -145,14 +157,26 @@ func (r *Reader) fin(n int, err error) (int, error) {
 	}
 	r.Ctx.L.EvDev("read", int64(n), e)
 	if err != nil {
-		r.ErrReturned = err
+		if r.ErrReturned == nil {
+			r.ErrReturned = err
+		}
 		r.sticky = err
+		if r.P.FailAt >= 0 && !r.resumed && err != io.EOF {
+			switch r.P.AfterErr {
+			case 1:
+				r.sticky = io.EOF
+				r.Ctx.Count("fault_error_reported_once_then_eof")
+			case 2:
+				r.sticky, r.resumed = nil, true
+				r.Ctx.Count("fault_error_transient_source_carries_on")
+			}
+		}
 	}
 	return n, err
 }
 
 func (r *Reader) endErr() error {
-	if r.P.FailAt >= 0 {
+	if r.P.FailAt >= 0 && !r.resumed {
 		return r.P.Err
 	}
 	return io.EOF
@@ -228,7 +252,7 @@ func (r *Reader) Read(p []byte) (int, error) {
 	r.Off += k
 	if r.Off == lim {
 		// last bytes: decide how the end is announced
-		if r.P.FailAt >= 0 {
+		if r.P.FailAt >= 0 && !r.resumed {
 			if r.P.FailWith {
 				r.Ctx.Count("fault_error_with_data")
 				return r.fin(k, r.P.Err)
@@ -320,6 +344,7 @@ func (s *ReadSeeker) Seek(off int64, whence int) (int64, error) {
 	s.Pos = abs
 	if !s.Quiet {
 		s.Ctx.L.EvDev("seek", abs)
+		s.Ctx.DevCall(0)
 	}
 	if s.Yield != nil {
 		s.Yield("Seek.ret")
@@ -426,6 +451,9 @@ func readAtCommon(ctx *core.Ctx, dev *core.Tape, data []byte, pl *Plan, failed *
 func evq(ctx *core.Ctx, kind string, a ...int64) {
 	if ctx != nil {
 		ctx.L.EvDev(kind, a...)
+		if kind == "sread" {
+			ctx.DevCall(int(a[0]))
+		}
 	}
 }
 
